@@ -20,7 +20,7 @@ HOpsF == {x \in AllHF : x.pat \in PatsFor(x.chain)}
 \* long-lived facade objects: created once (MOpsF), used by later calls - a Prefix / Resource made BEFORE a Router.Use
 \* must still see that middleware, and objects must not share state
 Ch1 == <<Pf("/api", <<"a">>)>>   Ch2 == <<Pf("/api", <<"a">>), Pf("/v", <<"b", "c">>)>>   Ch3 == <<Pf("/api", <<>>), Pf("/r/{id}", <<"b">>)>>
-MOpsF == {MkF("f1", Ch1, FALSE), MkF("f2", Ch2, FALSE), MkF("f3", Ch3, TRUE)}
+MOpsF == {MkF("f1", Ch1, FALSE), MkF("f2", Ch2, FALSE), MkF("f3", Ch3, TRUE), Misc(<<>>, FALSE), Misc(Ch2, FALSE), Misc(Ch3, TRUE)}
 HObjF == {HFo("f1", Ch1, FALSE, p, ms, mw) : p \in {"/x", "/{id}"}, ms \in {G, P}, mw \in MwsF}
          \cup {HFo("f2", Ch2, FALSE, p, ms, mw) : p \in {"/x", ""}, ms \in {G, P}, mw \in MwsF}
          \cup {HFo("f3", Ch3, TRUE, "", ms, mw) : ms \in {G, P}, mw \in MwsF}
